@@ -56,6 +56,15 @@ pub fn oracle_sigcmp(g: &str, b1: u8, a1: u32, b2: u8, a2: u32) -> String {
     if x == Equal && (b1, a1) != (b2, a2) {
         return "FAIL distinct descriptors compare Equal".into();
     }
+    // every recognised descriptor sorts before every unrecognised one
+    let v1 = op_sig(g, b1, a1) == "valid";
+    let v2 = op_sig(g, b2, a2) == "valid";
+    if v1 && !v2 && x != Less {
+        return format!("FAIL recognised vs unrecognised compares {:?}", x);
+    }
+    if !v1 && v2 && x != Greater {
+        return format!("FAIL unrecognised vs recognised compares {:?}", x);
+    }
     "PASS".into()
 }
 
